@@ -45,6 +45,9 @@ type Outcome struct {
 	// ReplayScenario, if set, replaces the generated scenario in the replay file (e.g. the
 	// scenario narrowed to the one fault plan that violated).
 	ReplayScenario any
+	// NoShrink: the violation cannot be re-observed in this process (the race detector reports
+	// each race once per process); report the scenario as generated and stop.
+	NoShrink bool
 }
 
 func (o *Outcome) Count(k string, n int64) {
@@ -81,6 +84,7 @@ type ReplayFile struct {
 	Detail     string          `json:"detail"`
 	Violations []Violation     `json:"violations"`
 	HistoryFP  string          `json:"history_fingerprint"`
+	Part       int             `json:"part"` // which world of a multi-world check produced it
 	Scenario   json.RawMessage `json:"scenario"`
 }
 
@@ -97,25 +101,26 @@ type KnownFinding struct {
 
 // WorkerResult is what one worker process writes for verifctl.
 type WorkerResult struct {
-	Property        string           `json:"property"`
-	Tier            string           `json:"tier"`
-	Seed            int64            `json:"seed"`
-	Worker          int              `json:"worker"`
-	Scenarios       int              `json:"scenarios"`
-	Executions      int              `json:"executions"`
-	Nontrivial      int              `json:"nontrivial"`
-	DistinctFPs     []uint64         `json:"distinct_fps"`    // hashes of distinct non-trivial scenarios
-	DistinctHist    []uint64         `json:"distinct_hist"`   // hashes of distinct histories
-	Counters        map[string]int64 `json:"counters"`
-	SimTimeNs       int64            `json:"sim_time_ns"`
-	WallS           float64          `json:"wall_s"`
-	Samples         []any            `json:"samples"`
-	Violations      []ReplayRef      `json:"violations"`
-	Known           map[string]int   `json:"known"` // known finding id -> times matched
-	KnownSample     map[string]string `json:"known_sample"`
-	RapidSeeds      []uint64         `json:"rapid_seeds"`
-	Done            bool             `json:"done"`
-	Trouble         string           `json:"trouble,omitempty"`
+	Property     string            `json:"property"`
+	Rule         string            `json:"rule"`
+	Tier         string            `json:"tier"`
+	Seed         int64             `json:"seed"`
+	Worker       int               `json:"worker"`
+	Scenarios    int               `json:"scenarios"`
+	Executions   int               `json:"executions"`
+	Nontrivial   int               `json:"nontrivial"`
+	DistinctFPs  []uint64          `json:"distinct_fps"`  // hashes of distinct non-trivial scenarios
+	DistinctHist []uint64          `json:"distinct_hist"` // hashes of distinct histories
+	Counters     map[string]int64  `json:"counters"`
+	SimTimeNs    int64             `json:"sim_time_ns"`
+	WallS        float64           `json:"wall_s"`
+	Samples      []any             `json:"samples"`
+	Violations   []ReplayRef       `json:"violations"`
+	Known        map[string]int    `json:"known"` // known finding id -> times matched
+	KnownSample  map[string]string `json:"known_sample"`
+	RapidSeeds   []uint64          `json:"rapid_seeds"`
+	Done         bool              `json:"done"`
+	Trouble      string            `json:"trouble,omitempty"`
 }
 
 type ReplayRef struct {
@@ -193,20 +198,23 @@ type captureTB struct {
 	msgs   []string
 }
 
-func (c *captureTB) Helper()                     {}
-func (c *captureTB) Name() string                { return c.name }
-func (c *captureTB) Logf(f string, a ...any)     {}
-func (c *captureTB) Log(a ...any)                {}
-func (c *captureTB) Skipf(f string, a ...any)    {}
-func (c *captureTB) Skip(a ...any)               {}
-func (c *captureTB) SkipNow()                    {}
-func (c *captureTB) Errorf(f string, a ...any)   { c.failed = true; c.msgs = append(c.msgs, fmt.Sprintf(f, a...)) }
-func (c *captureTB) Error(a ...any)              { c.failed = true; c.msgs = append(c.msgs, fmt.Sprint(a...)) }
-func (c *captureTB) Fatalf(f string, a ...any)   { c.Errorf(f, a...) }
-func (c *captureTB) Fatal(a ...any)              { c.Error(a...) }
-func (c *captureTB) FailNow()                    { c.failed = true }
-func (c *captureTB) Fail()                       { c.failed = true }
-func (c *captureTB) Failed() bool                { return c.failed }
+func (c *captureTB) Helper()                  {}
+func (c *captureTB) Name() string             { return c.name }
+func (c *captureTB) Logf(f string, a ...any)  {}
+func (c *captureTB) Log(a ...any)             {}
+func (c *captureTB) Skipf(f string, a ...any) {}
+func (c *captureTB) Skip(a ...any)            {}
+func (c *captureTB) SkipNow()                 {}
+func (c *captureTB) Errorf(f string, a ...any) {
+	c.failed = true
+	c.msgs = append(c.msgs, fmt.Sprintf(f, a...))
+}
+func (c *captureTB) Error(a ...any)            { c.failed = true; c.msgs = append(c.msgs, fmt.Sprint(a...)) }
+func (c *captureTB) Fatalf(f string, a ...any) { c.Errorf(f, a...) }
+func (c *captureTB) Fatal(a ...any)            { c.Error(a...) }
+func (c *captureTB) FailNow()                  { c.failed = true }
+func (c *captureTB) Fail()                     { c.failed = true }
+func (c *captureTB) Failed() bool              { return c.failed }
 
 // safeRun runs the check and converts a panic that reaches the harness frame into a
 // violation of class "panic" (the harness never recovers inside the engine).
@@ -258,7 +266,7 @@ func RunWorker(t *testing.T, checks []Check) {
 	}
 	outPath := os.Getenv("VERIF_OUT")
 	res := &WorkerResult{Property: prop, Tier: os.Getenv("VERIF_TIER"), Seed: envInt("VERIF_SEED", 1),
-		Worker: int(envInt("VERIF_WORKER", 0)), Counters: map[string]int64{}, Known: map[string]int{}, KnownSample: map[string]string{}}
+		Rule: c.Rule(), Worker: int(envInt("VERIF_WORKER", 0)), Counters: map[string]int64{}, Known: map[string]int{}, KnownSample: map[string]string{}}
 	if res.Tier == "" {
 		res.Tier = "quick"
 	}
@@ -300,11 +308,15 @@ func RunWorker(t *testing.T, checks []Check) {
 	flag.Set("rapid.nofailfile", "true")
 	flag.Set("rapid.shrinktime", "45s")
 
-	var firstClass string   // class of the first unknown violation; shrinking keeps to it
+	var firstClass string // class of the first unknown violation; shrinking keeps to it
 	var lastReplay *ReplayFile
 
+	stop := false
 	prop1 := func(rt *rapid.T) {
 		sc := c.Gen(rt, res.Tier)
+		if stop {
+			return
+		}
 		raw, err := json.Marshal(sc)
 		if err != nil {
 			panic(fmt.Sprintf("harness: scenario not serialisable: %v", err))
@@ -367,7 +379,11 @@ func RunWorker(t *testing.T, checks []Check) {
 			}
 		}
 		lastReplay = &ReplayFile{Property: prop, Seed: res.Seed, Class: pick.Class, Key: pick.Key, Detail: pick.Detail,
-			Violations: unknown, HistoryFP: out.HistoryFP, Scenario: rsc}
+			Violations: unknown, HistoryFP: out.HistoryFP, Scenario: rsc, Part: int(envInt("VERIF_PART", 0))}
+		if out.NoShrink {
+			stop = true
+			return
+		}
 		rt.Fatalf("VIOLATION %s %s: %s", prop, pick.Class, pick.Detail)
 	}
 
